@@ -2,7 +2,7 @@
 # usage: tools/seedverify.sh <prop> <n>   verifies /tmp/seed-<prop>/out/<n> (patch.diff + demo) in a fresh
 # scratch worktree: builds, baseline tests pass, demo fails with the patch and passes without.
 # On success copies it to /verif/seeded/<prop>-s<n>/ with meta.json.
-prop=$1; n=$2; out=${3:-out}; tag=s; [ "$out" = out2 ] && tag=t; [ "$out" = out3 ] && tag=u; src=/tmp/seed-$prop/$out/$n; wt=/tmp/sv-$prop-$n-$$
+prop=$1; n=$2; out=${3:-out}; tag=s; [ "$out" = out2 ] && tag=t; [ "$out" = out3 ] && tag=u; [ "$out" = out4 ] && tag=v; src=/tmp/seed-$prop/$out/$n; wt=/tmp/sv-$prop-$n-$$
 export GOFLAGS=-mod=mod GOPROXY=off
 [ -f "$src/patch.diff" ] || { echo "no patch in $src"; exit 2; }
 git -C /repo worktree add --detach -q "$wt" HEAD || exit 2
